@@ -344,21 +344,78 @@ func runC28(c *Ctx) {
 		g2.Pol = !g.Pol
 		return nonEmpty(g2)
 	}
+	// guardedUp: the guard dominates the site, or (the site sits in a helper or a closure) it dominates the
+	// place the closure is made and every call site of the helper inside the unsubscribe paths.
+	var guardedUp func(in ssa.Instruction, g func(Guard) bool, depth int) bool
+	guardedUp = func(in ssa.Instruction, g func(Guard) bool, depth int) bool {
+		if Guarded(in, g) {
+			return true
+		}
+		if depth <= 0 {
+			return false
+		}
+		f := in.Parent()
+		if p := f.Parent(); p != nil {
+			made, ok := 0, true
+			EachInstr(p, func(x ssa.Instruction) {
+				if mc, isMC := x.(*ssa.MakeClosure); isMC && mc.Fn == ssa.Value(f) {
+					made++
+					if !guardedUp(mc, g, depth-1) {
+						ok = false
+					}
+				}
+			})
+			return made > 0 && ok
+		}
+		sites, ok := 0, true
+		for _, site := range w.Callers(f) {
+			if !reach[site.Parent()] {
+				continue
+			}
+			sites++
+			if !guardedUp(site, g, depth-1) {
+				ok = false
+			}
+		}
+		return sites > 0 && ok
+	}
+	// a channel name taken out of a []string (or out of the keys of a map) is an element of a snapshot of
+	// the connection's subscriptions
+	isSnapshotElem := func(v ssa.Value) bool {
+		switch x := v.(type) {
+		case *ssa.UnOp:
+			if ia, ok := x.X.(*ssa.IndexAddr); ok && x.Op == token.MUL {
+				if sl, ok := ia.X.Type().Underlying().(*types.Slice); ok {
+					b, ok := sl.Elem().Underlying().(*types.Basic)
+					return ok && b.Kind() == types.String
+				}
+			}
+		case *ssa.Extract:
+			if nx, ok := x.Tuple.(*ssa.Next); ok && x.Index == 1 {
+				if rg, ok := nx.Iter.(*ssa.Range); ok {
+					_, isMap := rg.X.Type().Underlying().(*types.Map)
+					return isMap
+				}
+			}
+		}
+		return false
+	}
 	nForward, nAll := 0, 0
 	for f := range reach {
 		for _, ci := range CallsIn(f, false, w.calleeFn(clientUnsub)) {
 			arg := ci.Common().Args[1]
 			d := D(arg)
-			fromChannels := strings.Contains(d, "Client.Channels(") || strings.Contains(d, "ChannelsWithContext(")
+			fromChannels := isSnapshotElem(arg) || strings.Contains(d, "Client.Channels(") || strings.Contains(d, "ChannelsWithContext(")
 			if fromChannels {
 				nAll++
-				c.Check("C28.R1", ci, "all-channels fan-out only for an empty channel name", Guarded(ci, isEmpty), "unsubscribing from every channel must happen exactly when the caller passed an empty channel")
+				c.Check("C28.R1", ci, "all-channels fan-out only for an empty channel name", guardedUp(ci, isEmpty, 3), "unsubscribing from every channel must happen exactly when the caller passed an empty channel")
 				continue
 			}
 			nForward++
-			c.Check("C28.R1", ci, "forwarded channel name is non-empty", Guarded(ci, nonEmpty), "as documented for Node.Unsubscribe an empty channel means all channels: forwarding \"\" looks up c.channels[\"\"] (never present), unsubscribes nothing and pushes an unsubscribe for an empty channel (channel value: "+d+")")
+			c.Check("C28.R1", ci, "forwarded channel name is non-empty", guardedUp(ci, nonEmpty, 3), "as documented for Node.Unsubscribe an empty channel means all channels: forwarding \"\" looks up c.channels[\"\"] (never present), unsubscribes nothing and pushes an unsubscribe for an empty channel (channel value: "+d+")")
 		}
 	}
+	runSnapshotNotReused(c, reach)
 	c.CheckAt("C28.R1", "node-level unsubscribe paths reach Client.Unsubscribe", "hub.go", nForward >= 1, fmt.Sprintf("%d forwarding call(s)", nForward))
 	c.CheckAt("C28.R1", "node-level unsubscribe has an all-channels branch over Client.Channels()", "hub.go", nAll >= 1, "Node.Unsubscribe(user, \"\") must unsubscribe every matching connection from all of its channels")
 
